@@ -415,6 +415,43 @@ def run_src(abort, root, hexs):
             ref = sig
         elif sig != ref:
             return "DIFF %s" % kind
+    # the hex front-end is one more lazy source: it may pull the text of at most one byte beyond the emitted fields
+    r = run_hexsrc(abort, root, hexs, ref)
+    if r != "SAME":
+        return r
+    return "SAME"
+
+
+def run_hexsrc(abort, root, hexs, ref):
+    from tpmstream.io.hex import Hex
+
+    t, kw = parse_root(root)
+    if t is None or hexs == "-":
+        return "SAME"
+    for sep in ("", " "):
+        text = sep.join(hexs[i:i + 2] for i in range(0, len(hexs), 2)).encode()
+        per = 2 + len(sep)
+        src = Counting(text)
+        out, sigs, off = None, [], 0
+        try:
+            for ev in Hex.marshal(tpm_type=t, buffer=src, abort_on_error=abort, **kw):
+                sigs.append(show_event(ev, 0))
+                if isinstance(ev, MarshalEvent):
+                    if ev.value is not ...:
+                        off += ev.type._int_size
+                    if src.n > per * (off + 1):
+                        return "DIFF hex-lookahead sep=%r %s pulled %d chars with %d bytes of fields emitted" % (sep, spath(ev.path), src.n, off)
+            out = "ACC"
+        except InputStreamBytesDepletedError as e:
+            out = "DEP %s" % oz(e.command_code)
+        except InputStreamSuperfluousBytesError as e:
+            out = "SUP %s %s" % (hx(e.bytes_remaining), oz(e.command_code))
+        except ConstraintViolatedError as e:
+            out = "RAISE %s rem=%s" % (show_err(e), hx(e.bytes_remaining))
+        except Exception as e:  # noqa
+            out = "CRASH %s" % crash_name(e)
+        if ";".join(sigs + [out]) != ref:
+            return "DIFF hex-text sep=%r" % sep
     return "SAME"
 
 
@@ -506,10 +543,12 @@ def run_hist(spec):
         def __iter__(self):
             self.value = yield from self.g
 
+    strict = [False]
+
     def start(root, hexs):
         t, kw = parse_root(root)
         data = b"" if hexs == "-" else bytes.fromhex(hexs)
-        return G(Binary.marshal(tpm_type=t, buffer=data, abort_on_error=False, **kw))
+        return G(Binary.marshal(tpm_type=t, buffer=data, abort_on_error=strict[0], **kw))
 
     def finish(evs, g, root):
         kw = parse_root(root)[1]
@@ -519,14 +558,30 @@ def run_hist(spec):
             rebuilt = "EXC " + type(e).__name__
         return evs, g.value, rebuilt
 
+    return _hist_mode(items, start, finish, strict, False) if not spec.startswith("!") else "BADSPEC"
+
+
+def _hist_mode(items, start, finish, strict, _unused):
+    for mode in (False, True):
+        strict[0] = mode
+        r = _hist_once(items, start, finish)
+        if not r.startswith("OK"):
+            return r + (" strict" if mode else " warn")
+    return r
+
+
+def _hist_once(items, start, finish):
     runs = []
     for rnd in range(2):
         for root, hexs in items:
             g = start(root, hexs)
+            evs = []
             try:
-                evs = [e for e in g if isinstance(e, MarshalEvent)]
+                for e in g:
+                    if isinstance(e, MarshalEvent):
+                        evs.append(e)
             except Exception as e:  # noqa
-                evs = ["EXC " + type(e).__name__]
+                evs.append("EXC " + type(e).__name__)
             runs.append(finish(evs, g, root))
     n = len(items)
     # interleaved: round robin over next()
